@@ -33,6 +33,13 @@ def least_element_bound(v) -> bool:
         pts = iv.points(x, y, bottom=True)
         same = iv.vector(x, pts) == iv.vector(y, pts)
         return (x == y) == same and (y == x) == same
+    if what.startswith("(a & b).is_empty()") or what.startswith("(a | b).is_any()"):
+        r, a, b = live["result"], live["x"], live["y"]
+        pts = iv.points(a, b, r, bottom=True)
+        va, vb = iv.vector(a, pts), iv.vector(b, pts)
+        if what.startswith("(a & b)"):
+            return bool(r.is_empty()) == (not any(p and q for p, q in zip(va, vb)))
+        return bool(r.is_any()) == all(p or q for p, q in zip(va, vb))
     if what.startswith("law "):
         lhs, rhs = live["lhs"], live["rhs"]
         pts = iv.points(lhs, rhs, bottom=True)
